@@ -100,7 +100,12 @@ def build_check(prefix, sp: AggSpec, clauses=("rejects", "post", "dtype", "shape
             if "shape" in clauses:
                 cx.oblige(f"{tag}.shape", z3.And(len(v.shape_l) == 1, lift(v.shape_l[0]) == n) if len(v.shape_l) == 1 else False)
             if "post" in clauses:
-                cases = sp.spec(it, J, m, n, cfg, cx)
+                try:
+                    cases = sp.spec(it, J, m, n, cfg, cx)
+                except KeyError as ex:
+                    # the specification is stated through a loop contract that was not exercised: only this clause is undecided
+                    cx.oblige(f"{tag}.post", z3.BoolVal(False), undecided=str(ex))
+                    return
                 goal = z3.BoolVal(False)
                 covered = []
                 for cond, val in cases:
@@ -364,7 +369,7 @@ def cfg_graddrop(with_leak):
         userf = V.SymMethod(lambda interp, Pm: mk("user_f", [Pm], Pm.shape_l, Pm.dtype))
         if not with_leak:
             return {"leak": None, "f": userf}, {"leak": None}
-        lk, ln = sym_vector(cx, "leak", dtype=J.dtype)
+        lk, ln = sym_vector(cx, "leak")   # of ANY dtype: the result must still have the matrix's dtype (in-place accumulation)
         return {"leak": lk, "f": userf}, {"leak": lk, "llen": ln}
     return config
 
